@@ -16,6 +16,7 @@ type VerifSegInfo struct {
 	Suffix        string
 	Location      string
 	RefCount      int32
+	Unpinned      int32
 	Open          bool
 	MustBeDeleted bool
 	DirExists     bool
@@ -33,7 +34,7 @@ func verifInfo[T TSTable, O any](s *segment[T, O]) VerifSegInfo {
 	_, err := os.Stat(s.location)
 	return VerifSegInfo{
 		Start: s.Start, End: s.End, Suffix: s.suffix, Location: s.location,
-		RefCount: atomic.LoadInt32(&s.refCount), Open: open,
+		RefCount: atomic.LoadInt32(&s.refCount), Unpinned: atomic.LoadInt32(&s.unpinned), Open: open,
 		MustBeDeleted: atomic.LoadUint32(&s.mustBeDeleted) != 0, DirExists: err == nil, Shards: n,
 	}
 }
